@@ -1223,7 +1223,7 @@ def delete_objects_walk(ctx):
     from .walk import ListWalk, Stuck
     rid = "DEL.delete-objects"
     ctx.rule(rid, "delete_objects, executed on lists of 1..5 retired nodes, calls delete_self on every node exactly once, reads a node's link only "
-                  "before that call, and leaves the list empty; the destructor of an orphan applies it to each of its retire lists")
+                  "before that call, detaches the list from the caller's head BEFORE the first deleter runs (deleters may retire further objects), and leaves the list empty; the destructor of an orphan applies it to each of its retire lists")
     pat = R + "detail::delete_objects"
     for fn in flow._shapes(ctx, pat):
         bad = None
@@ -1232,13 +1232,16 @@ def delete_objects_walk(ctx):
                 w = ListWalk(fn, n_)
                 w.env[fn.params[0]["name"]] = 1
                 deleted = []
+                attached = []
 
-                def on_event(w_, e, deleted=deleted):
+                def on_event(w_, e, deleted=deleted, attached=attached):
                     n = fn.nodes[e]
                     if n["k"] == "call" and n.get("callee", "").split("::")[-1] == "delete_self":
                         v = w_.ev(fn.kids(e)[0])
                         deleted.append(v)
                         w_.freed.add(v)
+                        if w_.env.get(fn.params[0]["name"]) != 0:
+                            attached.append(v)
                 w.run(lambda f, e: False, on_event=on_event)
                 if w.read_after_free:
                     bad = "list of %d: the link of node #%d is read after the node deleted itself" % (n_, w.read_after_free[0])
@@ -1246,6 +1249,10 @@ def delete_objects_walk(ctx):
                     bad = "list of %d: delete_self called on nodes %s" % (n_, deleted)
                 elif w.env.get(fn.params[0]["name"]) != 0:
                     bad = "list of %d: the caller's list head is not reset (the nodes would be destroyed again by the next sweep)" % n_
+                elif attached:
+                    bad = ("list of %d: node #%d deletes itself while the caller's list head still refers to the list - a deleter that retires another object "
+                           "(a parent whose destructor retires its child) pushes it onto that list, and the reset that follows the walk drops it: the object is "
+                           "never destroyed (F25)" % (n_, attached[0]))
                 if bad:
                     break
         except Stuck as ex:
